@@ -5,7 +5,10 @@
 //!                                                                      repeats allowed; default: all, once each)
 //!   c12 rewrite <x:path:isdir…> <trees…>        | G:<glob-hex>… <store>
 //!   c12 rewrite2 …                                                   (the same rewrite applied twice: idempotent)
-//!   c12 repair  <h:id…> <trees…>                | <store>          (store = damaged + `repair index` done)
+//!   c12 repair  <h:id…> <trees…>                | [B:<label>:<path-hex>:<len>:<sha>…] <store>
+//!                                                                     (store = damaged + `repair index` done; `B:` = length and
+//!                                                                      SHA-256 prefix of the SOURCE bytes of a file of snapshot
+//!                                                                      <label>, written by the generator: "original bytes")
 //!   c12 copy    <k:…/t:… blob keys> <…>         | <store>
 //! Trees are serialised in pre-order: `S` (next snapshot, in label order), `L:<name>:<key>:<tag>` (non-dir),
 //! `D:<name>:<key>:<tag>` … `E` (dir with subtree), `X:<name>:<key>:<tag>` (dir without subtree),
@@ -339,7 +342,13 @@ fn small_cfg(rng: &mut Rng) -> ConfigOptions {
 }
 
 fn build(rng: &mut Rng, stats: &mut Stats, n_snaps: usize, plain_names: bool) -> Option<RepoHandle> {
+    build_src(rng, stats, n_snaps, plain_names).map(|x| x.0)
+}
+
+/// `build` that also returns the `B:` tokens of the sources backed up (see `source_tokens`)
+fn build_src(rng: &mut Rng, stats: &mut Stats, n_snaps: usize, plain_names: bool) -> Option<(RepoHandle, Vec<String>)> {
     let h = init_repo(&small_cfg(rng), rng.chance(1, 4))?;
+    let mut btoks = Vec::new();
     let mut prev: Option<MemSource> = None;
     for k in 0..n_snaps {
         let src = match &prev {
@@ -358,9 +367,10 @@ fn build(rng: &mut Rng, stats: &mut Stats, n_snaps: usize, plain_names: bool) ->
             _ => rand_source(rng, stats, k as i64, plain_names),
         };
         _ = backup_labelled(&h, &src, &format!("s{k}"))?;
+        btoks.extend(source_tokens(&format!("s{k}"), &src));
         prev = Some(src);
     }
-    Some(h)
+    Some((h, btoks))
 }
 
 fn finish_line(op: &str, model: Vec<String>, extra: Vec<String>, h: &RepoHandle) -> String {
@@ -606,13 +616,119 @@ fn repair_listing(enc: &mut Enc, ids: &BTreeMap<String, usize>, ts: &[TNode], pr
     }
 }
 
-fn repair_exec(h: &RepoHandle) -> String {
+/// files of a tree as the snapshot records them: path (raw name bytes joined by `/`) -> (chunk ids, size)
+fn recorded_files(ts: &[TNode], prefix: &[u8], out: &mut BTreeMap<Vec<u8>, (Vec<String>, u64)>) {
+    for t in ts {
+        let mut p = prefix.to_vec();
+        if !p.is_empty() {
+            p.push(b'/');
+        }
+        p.extend_from_slice(&t.raw_name);
+        if t.is_file {
+            _ = out.insert(p, (t.content.clone(), t.size));
+        } else if let Sub::Tree(s) = &t.sub {
+            recorded_files(s, &p, out);
+        }
+    }
+}
+
+/// `B:<label>:<path-hex>:<len>:<sha>` tokens of a source (the bytes that were backed up into snapshot `label`)
+fn source_tokens(label: &str, src: &MemSource) -> Vec<String> {
+    let mut out = Vec::new();
+    for e in &src.entries {
+        if let SrcKind::File(c) = &e.kind {
+            let mut p = SRC_ROOT.trim_start_matches('/').as_bytes().to_vec();
+            for comp in &e.path {
+                p.push(b'/');
+                p.extend_from_slice(comp);
+            }
+            out.push(format!("B:{label}:{}:{}:{}", hex(&p), c.len(), &sha_hex(c)[..16]));
+        }
+    }
+    out
+}
+
+/// Oracle "every file repair keeps WITHOUT the suffix dumps to its original bytes".  A file of the repaired (or left-alone) snapshot
+/// at a path that held a file before the repair is such a file.  Original bytes: the `B:` token of (label, path) when the generator
+/// wrote one (SHA-256 + length of the source bytes), and always what the snapshot itself recorded before the repair (the list of chunk
+/// ids = SHA-256 of each chunk's bytes, and the size): the dump must have the recorded size and split — at the `data_length`s of the
+/// chunks the node now lists — into pieces hashing to exactly the recorded ids, in order.
+fn kept_files_oracle<S: IndexedFull>(
+    repo: &Repository<S>,
+    tree: TreeId,
+    label: &str,
+    recorded: &BTreeMap<Vec<u8>, (Vec<String>, u64)>,
+    source: &BTreeMap<(String, Vec<u8>), (u64, String)>,
+) -> Option<&'static str> {
+    use rustic_core::repofile::{Metadata, NodeType};
+    use std::os::unix::ffi::OsStrExt;
+    let mut root = Node::new_node(std::ffi::OsStr::new(""), NodeType::Dir, Metadata::default());
+    root.subtree = Some(tree);
+    let Ok(it) = repo.ls(&root, &rustic_core::LsOptions::default()) else { return Some("oracle-fail:repair-kept-file-unreadable") };
+    for item in it {
+        let Ok((path, node)) = item else { return Some("oracle-fail:repair-kept-file-unreadable") };
+        if !node.is_file() {
+            continue;
+        }
+        let key = path.as_os_str().as_bytes().to_vec();
+        let Some((ids, size)) = recorded.get(&key) else { continue };
+        let mut buf = Vec::new();
+        if repo.dump(&node, &mut buf).is_err() {
+            return Some("oracle-fail:repair-kept-file-unreadable");
+        }
+        if let Some((len, sha)) = source.get(&(label.to_string(), key.clone())) {
+            if buf.len() as u64 != *len || sha_hex(&buf)[..16] != *sha {
+                return Some("oracle-fail:repair-kept-file-differs-from-source");
+            }
+        }
+        let now: Vec<rustic_core::DataId> = node.content.iter().flatten().copied().collect();
+        if buf.len() as u64 != *size || node.meta.size != *size || now.len() != ids.len() {
+            return Some("oracle-fail:repair-kept-file-differs");
+        }
+        let mut at = 0usize;
+        for (id, want) in now.iter().zip(ids) {
+            let Ok(e) = repo.get_index_entry(id) else { return Some("oracle-fail:repair-kept-file-unreadable") };
+            let end = (at + e.data_length() as usize).min(buf.len());
+            if sha_hex(&buf[at..end]) != *want {
+                return Some("oracle-fail:repair-kept-file-differs");
+            }
+            at = end;
+        }
+        if at != buf.len() {
+            return Some("oracle-fail:repair-kept-file-differs");
+        }
+    }
+    None
+}
+
+fn repair_exec(h: &RepoHandle, extra: &[String]) -> String {
     let Some(snaps) = snaps_by_label(h) else { return "err:snapshots".into() };
     let Some(trees) = load_all(h, &snaps) else { return "err:load".into() };
     let mut enc = Enc::new(&trees);
     let mut ids = BTreeMap::new();
     for t in trees.iter().flatten() {
         repair_tokens(&mut enc, &mut ids, t, &mut Vec::new());
+    }
+    // what every snapshot records about its files before the repair, and the source digests handed over by the generator
+    let recorded: Vec<BTreeMap<Vec<u8>, (Vec<String>, u64)>> = trees
+        .iter()
+        .map(|t| {
+            let mut m = BTreeMap::new();
+            if let Some(ts) = t {
+                recorded_files(ts, b"", &mut m);
+            }
+            m
+        })
+        .collect();
+    let mut source: BTreeMap<(String, Vec<u8>), (u64, String)> = BTreeMap::new();
+    for b in extra.iter().filter_map(|x| x.strip_prefix("B:")) {
+        let f: Vec<&str> = b.split(':').collect();
+        let parsed = match f.as_slice() {
+            [label, path, len, sha] => unhex(path).and_then(|p| Some(((*label).to_string(), p, len.parse::<u64>().ok()?, (*sha).to_string()))),
+            _ => None,
+        };
+        let Some((label, path, len, sha)) = parsed else { return "bad-op".into() };
+        _ = source.insert((label, path), (len, sha));
     }
     let before = all_digests(h).ok();
     let repo = match open_nc(h).and_then(Repository::to_indexed) {
@@ -640,6 +756,12 @@ fn repair_exec(h: &RepoHandle) -> String {
         // everything repair keeps must read back
         if tree_digest(&repo, now.tree).is_err() {
             return "oracle-fail:repaired-snapshot-unreadable".into();
+        }
+        // every file kept without the suffix dumps to its original bytes
+        if let Some(i) = snaps.iter().position(|x| x.id == s.id) {
+            if let Some(f) = kept_files_oracle(&repo, now.tree, &s.label, &recorded[i], &source) {
+                return f.into();
+            }
         }
         if unchanged {
             // identity on snapshots it calls ok: same digest as before
@@ -881,7 +1003,7 @@ fn handle_of(toks: &[&str]) -> Option<(RepoHandle, Vec<String>)> {
     let mut extra = Vec::new();
     let mut rest = Vec::new();
     for t in toks {
-        if t.starts_with("G:") || t.starts_with("O:") || t.starts_with("M:") || t.starts_with("H:") {
+        if t.starts_with("G:") || t.starts_with("O:") || t.starts_with("M:") || t.starts_with("H:") || t.starts_with("B:") {
             extra.push((*t).to_string());
         } else {
             rest.push(*t);
@@ -923,7 +1045,7 @@ pub fn exec(toks: &[&str]) -> String {
                 let nothing = !model.iter().any(|t| t.starts_with("x:")) || model.iter().any(|t| t == "x::1");
                 rewrite_exec(&h, &globs, nothing, op == "rewrite2")
             }
-            "repair" => repair_exec(&h),
+            "repair" => repair_exec(&h, &extra),
             _ => {
                 let o = extra.iter().find_map(|g| g.strip_prefix("O:")).unwrap_or("0:0");
                 let (a, b) = o.split_once(':').unwrap_or(("0", "0"));
@@ -1315,6 +1437,190 @@ fn damage_for_repair(h: &RepoHandle, rng: &mut Rng, stats: &mut Stats) -> Option
     Some(())
 }
 
+// ---- repair: multi-chunk files losing chunks selectively ----------------------------------------------------
+
+/// Repositories for `repair` whose files have SEVERAL chunks: fixed-size chunker (16–64 bytes), file contents assembled from a small pool
+/// of blocks (chunks shared inside a file, between files and between snapshots), from fresh blocks, or from fresh blocks followed by the
+/// LAST chunk of a file of an older snapshot (that chunk is de-duplicated into the older pack); optional short tail chunk.  Pack layouts:
+/// every blob in its own pack (a lost pack = a lost blob), a few blobs per pack, one data pack per backup.
+fn multi_chunk_repo(rng: &mut Rng, stats: &mut Stats) -> Option<(RepoHandle, Vec<String>)> {
+    let chunk = *rng.pick(&[16usize, 32, 64]);
+    let mut c = ConfigOptions::default();
+    c.set_chunker = Some(rustic_core::repofile::Chunker::FixedSize);
+    c.set_chunk_size = Some(bytesize::ByteSize(chunk as u64));
+    match rng.below(4) {
+        0 | 1 => {
+            c.set_datapack_size = Some(bytesize::ByteSize(1));
+            stats.hit("repair.multi.layout.blob-per-pack");
+        }
+        2 => {
+            c.set_datapack_size = Some(bytesize::ByteSize(3 * chunk as u64));
+            stats.hit("repair.multi.layout.few-blobs-per-pack");
+        }
+        _ => stats.hit("repair.multi.layout.pack-per-backup"),
+    }
+    if rng.chance(1, 2) {
+        c.set_treepack_size = Some(bytesize::ByteSize(1));
+    }
+    let v1 = rng.chance(1, 5);
+    if !v1 && rng.chance(1, 2) {
+        c.set_compression = Some(*rng.pick(&[0i32, 3]));
+    }
+    let h = init_repo(&c, v1)?;
+    let pool: Vec<Vec<u8>> = (0..4 + rng.below(4)).map(|_| rng.bytes(chunk)).collect();
+    let n_snaps = 1 + rng.below(3) as usize;
+    let mut btoks = Vec::new();
+    let mut older_last: Vec<Vec<u8>> = Vec::new(); // last chunks of files of OLDER snapshots
+    for k in 0..n_snaps {
+        let mut es: Vec<SrcEntry> = Vec::new();
+        let mut used: BTreeSet<Vec<Vec<u8>>> = BTreeSet::new();
+        let mut lasts = Vec::new();
+        for _ in 0..1 + rng.below(4) {
+            let depth = 1 + rng.below(3) as usize;
+            let path: Vec<Vec<u8>> = (0..depth).map(|_| rng.pick(&NAMES[..4]).to_vec()).collect();
+            if used.iter().any(|u| u.starts_with(&path) || path.starts_with(u)) {
+                continue;
+            }
+            _ = used.insert(path.clone());
+            let nb = *rng.pick(&[1usize, 2, 2, 3, 3, 4, 6]);
+            let mut blocks: Vec<Vec<u8>> = match rng.below(3) {
+                0 => {
+                    stats.hit("repair.multi.file.pool-blocks");
+                    (0..nb).map(|_| rng.pick(&pool).clone()).collect()
+                }
+                1 => {
+                    let mut b: Vec<Vec<u8>> = (0..nb).map(|_| rng.bytes(chunk)).collect();
+                    if nb >= 2 && !older_last.is_empty() {
+                        stats.hit("repair.multi.file.last-chunk-of-older-file");
+                        b[nb - 1] = rng.pick(&older_last).clone();
+                    } else {
+                        stats.hit("repair.multi.file.fresh-blocks");
+                    }
+                    b
+                }
+                _ => {
+                    stats.hit("repair.multi.file.mixed-blocks");
+                    (0..nb).map(|_| if rng.chance(1, 2) { rng.pick(&pool).clone() } else { rng.bytes(chunk) }).collect()
+                }
+            };
+            if blocks.last().is_some_and(|b| b.len() == chunk) && rng.chance(1, 3) {
+                let tail = 1 + rng.below(chunk as u64 - 1) as usize;
+                blocks.push(rng.bytes(tail));
+            }
+            stats.hit(format!("repair.multi.file.chunks.{}", blocks.len().min(5)));
+            if let Some(l) = blocks.last() {
+                lasts.push(l.clone());
+            }
+            let refs: Vec<&[u8]> = path.iter().map(Vec::as_slice).collect();
+            let mut e = SrcEntry::file(&refs, &blocks.concat());
+            e.mtime_s = 1_600_000_000 + k as i64 * 1000 + 1 + rng.below(899) as i64;
+            e.ctime_s = e.mtime_s;
+            es.push(e);
+        }
+        let src = MemSource::new(es);
+        _ = backup_labelled(&h, &src, &format!("s{k}"))?;
+        btoks.extend(source_tokens(&format!("s{k}"), &src));
+        older_last.extend(lasts);
+    }
+    Some((h, btoks))
+}
+
+fn file_contents(ts: &[TNode], out: &mut Vec<Vec<String>>) {
+    for t in ts {
+        if t.is_file {
+            out.push(t.content.clone());
+        } else if let Sub::Tree(s) = &t.sub {
+            file_contents(s, out);
+        }
+    }
+}
+
+/// Lose chunks of ONE multi-chunk file selectively — the first, a middle one, the last, several, all but the last, all — by removing the
+/// packs that hold them (with one blob per pack exactly those chunks; otherwise their pack neighbours too), or one random pack, or
+/// nothing; then `repair index`.  What each multi-chunk file really lost is counted in `repair.multi.lost.*`.
+fn damage_selective(h: &RepoHandle, rng: &mut Rng, stats: &mut Stats) -> Option<()> {
+    let snaps = snaps_by_label(h)?;
+    let trees = load_all(h, &snaps)?;
+    let mut files = Vec::new();
+    for t in trees.iter().flatten() {
+        file_contents(t, &mut files);
+    }
+    files.sort();
+    files.dedup();
+    let multi: Vec<Vec<String>> = files.iter().filter(|c| c.len() >= 2).cloned().collect();
+    let data_id = |x: &String| -> Option<rustic_core::DataId> { Some(x.parse::<rustic_core::Id>().ok()?.into()) };
+    let mut lose: BTreeSet<rustic_core::Id> = BTreeSet::new();
+    let mode = if multi.is_empty() { rng.below(2) } else { rng.below(9) };
+    {
+        let repo = open_nc(h).ok()?.to_indexed().ok()?;
+        let all_packs = h.be.ids(FileType::Pack);
+        let target: Vec<String> = if mode < 2 { vec![] } else { rng.pick(&multi).clone() };
+        let positions: Vec<usize> = if mode < 2 {
+            vec![]
+        } else {
+            let n = target.len();
+            match mode {
+                2 => vec![0],
+                3 => vec![if n >= 3 { 1 + rng.below(n as u64 - 2) as usize } else { 0 }],
+                4 => vec![n - 1],
+                5 => {
+                    let mut v: Vec<usize> = (0..n).filter(|_| rng.chance(1, 2)).collect();
+                    if v.is_empty() {
+                        v.push(rng.below(n as u64) as usize);
+                    }
+                    v
+                }
+                6 => (0..n - 1).collect(),
+                7 => (0..n).collect(),
+                _ => vec![rng.below(n as u64) as usize],
+            }
+        };
+        stats.hit(format!(
+            "repair.multi.damage.{}",
+            ["none", "random-pack", "first", "middle", "last", "several", "all-but-last", "all", "one-chunk+random-pack"][mode as usize]
+        ));
+        for p in positions {
+            if let Some(e) = data_id(&target[p]).and_then(|id| repo.get_index_entry(&id).ok()) {
+                _ = lose.insert(*e.pack);
+            }
+        }
+        if (mode == 1 || mode == 8) && !all_packs.is_empty() {
+            _ = lose.insert(*rng.pick(&all_packs));
+        }
+    }
+    for id in &lose {
+        h.be.del_raw(FileType::Pack, id);
+    }
+    open_nc(h).ok()?.repair_index(&RepairIndexOptions::default(), false).ok()?;
+    let repo = open_nc(h).ok()?.to_indexed().ok()?;
+    for f in &multi {
+        let lost: Vec<bool> = f.iter().map(|x| data_id(x).is_none_or(|id| repo.get_index_entry(&id).is_err())).collect();
+        let n = lost.len();
+        let k = lost.iter().filter(|x| **x).count();
+        let class = if k == 0 {
+            "none"
+        } else if k == n {
+            "all"
+        } else if k == 1 && lost[0] {
+            "first-only"
+        } else if k == 1 && lost[n - 1] {
+            "last-only"
+        } else if k == 1 {
+            "middle-only"
+        } else {
+            "several"
+        };
+        stats.hit(format!("repair.multi.lost.{class}"));
+        if k > 0 && !lost[n - 1] {
+            stats.hit("repair.multi.lost.earlier-chunk-lost-last-kept");
+        }
+        if k > 0 && k < n && lost[n - 1] {
+            stats.hit("repair.multi.lost.last-lost-earlier-kept");
+        }
+    }
+    Some(())
+}
+
 pub fn generate(thorough: bool, rng: &mut Rng, ops: &mut Vec<String>, stats: &mut Stats) {
     let n = if thorough { 1000 } else { 90 };
     match collision_repo() {
@@ -1356,10 +1662,10 @@ pub fn generate(thorough: bool, rng: &mut Rng, ops: &mut Vec<String>, stats: &mu
         }
         // repair
         let n_snaps = 1 + rng.below(3) as usize;
-        if let Some(h) = build(rng, stats, n_snaps, true) {
+        if let Some((h, btoks)) = build_src(rng, stats, n_snaps, true) {
             if damage_for_repair(&h, rng, stats).is_some() {
                 if let Some(m) = repair_model(&h) {
-                    ops.push(finish_line("repair", m, vec![], &h));
+                    ops.push(finish_line("repair", m, btoks, &h));
                 }
             }
         }
@@ -1387,5 +1693,16 @@ pub fn generate(thorough: bool, rng: &mut Rng, ops: &mut Vec<String>, stats: &mu
         }
     }
     corner_cases(if thorough { 700 } else { 60 }, rng, ops, stats);
+    // repair of repositories with multi-chunk files losing chunks selectively (after everything else: the older cases stay a prefix)
+    for _ in 0..(if thorough { 700 } else { 70 }) {
+        if let Some((h, btoks)) = multi_chunk_repo(rng, stats) {
+            if damage_selective(&h, rng, stats).is_some() {
+                if let Some(m) = repair_model(&h) {
+                    stats.hit("repair.multi");
+                    ops.push(finish_line("repair", m, btoks, &h));
+                }
+            }
+        }
+    }
     let _ = (SingleFileSource { name: String::new(), content: vec![], mtime_s: 0 }, ft_idx(FileType::Pack), Store::new(), MasterKey::new());
 }
